@@ -962,7 +962,7 @@ func c09CoqProg(as []c09Artefact) string {
 }
 
 func TestVerif_C09(t *testing.T) {
-	res := newVerifResult("(a) injection sequences: every sequence of length <=2 over 12 injection shapes (right / wrong / empty / near-miss passphrase x with/without TLS and verified chain x field present) plus seeded random sequences of length 3..7, on 8 key-file configurations (RSA; RSA+Ed25519; Ed25519 under another passphrase; Ed25519 file not Ed25519; main key unusable; own key pre-listed; Ed25519 key pre-listed; both pre-listed), each on a fresh sealed state from loadVerifyConfigFile, compared step by step with Model.Seal.inject_run; (b) every route of the regenerated mux x {GET,POST} x 5 credentials plus targeted signing requests, on a sealed state, on a half-loaded state (Ed25519 loaded, main key unusable) and on the unsealed twin: non-trivial = the twin emits a signed artefact for that request; (c) artefacts of the twin verified against /public/x509ca, /public/sshca and the JWKS")
+	res := newVerifResult("(a) injection sequences: every sequence of length <=2 over 12 injection shapes (right / wrong / empty / near-miss passphrase x with/without TLS and verified chain x field present) plus seeded random sequences of length 3..7, on 16 key-file configurations (main file good / unparsable / wrong key type x Ed25519 file absent / good / under another passphrase / unparsable / wrong key type x keymaster_public_keys_filename listing own main key / own Ed25519 key / foreign keys / duplicates), each on a fresh sealed state from loadVerifyConfigFile, the whole key state fingerprinted before and after every injection, compared step by step with Model.Seal.inject_run; (b) every route of the regenerated mux x {GET,POST} x 5 credentials plus targeted signing requests, on a sealed state, on a half-loaded state (Ed25519 signer present, main signer absent, own main key listed as trusted peer key) and on the unsealed twin: non-trivial = the twin emits a signed artefact for that request; (c) artefacts of the twin verified against /public/x509ca, /public/sshca and the JWKS; (d) the two admin handlers behind real TLS / plain HTTP listeners configured like main()'s admin server")
 	rng := verifRand()
 	var sb, idx strings.Builder
 	sb.WriteString(coqCaseHeader)
